@@ -283,6 +283,34 @@ class TupleAssign(ast.NodeTransformer):
         return node
 
 
+class KwCalls(ast.NodeTransformer):
+    """inside a class, `self.m(a, b)` for a method m of that class with plain positional parameters becomes `self.m(p=a, q=b)`
+    (keywords in parameter order: same evaluation order). Private methods only (no subclass outside the package overrides them)."""
+    def visit_ClassDef(self, node):
+        sigs = {}
+        for st in node.body:
+            if isinstance(st, ast.FunctionDef) and st.name.startswith("_") and not st.name.startswith("__") and \
+                    not st.args.vararg and not st.args.kwarg and not st.args.kwonlyargs and not st.decorator_list and \
+                    not st.name.startswith("_handle_") and not st.name.startswith("_rpyc_"):
+                sigs[st.name] = [a.arg for a in st.args.args][1:]
+        saved = getattr(self, "sigs", None)
+        self.sigs = sigs
+        self.generic_visit(node)
+        self.sigs = saved
+        return node
+
+    def visit_Call(self, node):
+        self.generic_visit(node)
+        sigs = getattr(self, "sigs", None)
+        if sigs and isinstance(node.func, ast.Attribute) and isinstance(node.func.value, ast.Name) and node.func.value.id == "self" and \
+                node.func.attr in sigs and node.args and not node.keywords and not any(isinstance(a, ast.Starred) for a in node.args) and \
+                len(node.args) <= len(sigs[node.func.attr]):
+            names = sigs[node.func.attr]
+            node.keywords = [ast.keyword(arg=n, value=a) for n, a in zip(names, node.args)]
+            node.args = []
+        return node
+
+
 class OSErrorAliases(ast.NodeTransformer):
     """Python 3 aliases of OSError spelled as OSError: IOError, EnvironmentError, socket.error (same class objects)"""
     def visit_Name(self, n):
@@ -306,6 +334,10 @@ def transform(text, mode):
         for node in ast.walk(tree):
             if isinstance(node, (ast.FunctionDef, ast.AsyncFunctionDef)):
                 MODES[mode]().visit(node)
+        ast.fix_missing_locations(tree)
+        return ast.unparse(tree) + "\n"
+    if mode == "kwcalls":
+        tree = KwCalls().visit(tree)
         ast.fix_missing_locations(tree)
         return ast.unparse(tree) + "\n"
     if mode == "oserror":
